@@ -159,6 +159,16 @@ check(
     "DESIGN.md section 3 / C15",
 )
 
+check(
+    "C16",
+    "exhaustive enumeration of single-candidate reporter variations + property-based testing of equivalence-relation laws over generated citation pools with an independent equality oracle; round trip through corrected_citation()",
+    "Exhaustive over every plain-shape case-reporter variation with one candidate edition (==, hash, Resource, "
+    "re-parse fixed point), plus generated pools in which == must coincide with an independently decided equality and "
+    "satisfy reflexivity, symmetry, transitivity, hash and Resource consistency, identity-only and cross-kind laws.",
+    "corrected_reporter()/guess_edition are exercised through the round trip and the variation table from reporters-db; pools use a fixed family of templates.",
+    "DESIGN.md section 3 / C16",
+)
+
 
 def build():
     all_ids = [f"C{i:02d}" for i in range(1, 21)]
